@@ -104,6 +104,9 @@ class Gen:
         r = self.rng
         did = self.fresh()
         n, n_end = self.rng_range(kind)
+        if kind in ("KPP", "KExch", "KSurf", "KSS", "KGas", "KRxn", "KTemp", "KPres") and r.random() < 0.5 and self.existing("KSol", 0, 12):
+            n = r.choice(self.existing("KSol", 0, 12))      # a reactant of an existing cell
+            n_end = min(12, n + (r.randint(1, 2) if r.random() < 0.3 else 0))
         u = (did % 997) / 997.0            # unique-ish fraction making the text (and so the content) distinct
         tmpl = {"def": did}
         hdr = "%s %d%s" % (KW[kind], n, "-%d" % n_end if n_end > n else "")
@@ -245,7 +248,10 @@ class Gen:
         sols = self.existing("KSol", 0, 12)
         if not sols:
             return []
+        rich = [n for n in sols if any(n in self.mirror[k] for k in ("KPP", "KExch", "KSurf", "KSS", "KGas", "KRxn"))]
         c = set(r.sample(sols, min(len(sols), r.choice([1, 1, 2]))))
+        if rich and r.random() < 0.7:
+            c.add(r.choice(rich))               # a cell that has more than a solution
         if r.random() < 0.2:
             c.add(r.randint(0, 13))           # maybe a cell with no solution: skipped
         if r.random() < 0.05:
